@@ -70,6 +70,25 @@ func InitGenesis(ctx context.Context, k keeper.Keeper, genState types.GenesisSta
 		}
 	}
 
+	// Restore the number of bids matched at the last end time of every batch auction.
+	// It is not part of the genesis state, but it always equals the number of bids that
+	// are flagged as matched, and an auction in the middle of its extended rounds needs
+	// it to decide whether to extend again.
+	matchedLen := map[uint64]int64{}
+	for _, elem := range genState.BidList {
+		if elem.IsMatched {
+			matchedLen[elem.AuctionId]++
+		}
+	}
+	if err := k.IterateAuctions(ctx, func(id uint64, auction types.AuctionI) (bool, error) {
+		if n := matchedLen[id]; auction.GetType() == types.AuctionTypeBatch && n > 0 {
+			return false, k.SetMatchedBidsLen(ctx, id, n)
+		}
+		return false, nil
+	}); err != nil {
+		return err
+	}
+
 	// Set all the vestingQueue
 	for _, elem := range genState.VestingQueueList {
 		_, err := k.Auction.Get(ctx, elem.AuctionId)
